@@ -39,7 +39,7 @@ pub struct InputOpts {
 
 impl Default for InputOpts {
     fn default() -> Self {
-        InputOpts { rich: RichOpts { override_chance: 110, corrupt_chance: 70, max_gap: 64, tables_early: false, allow_compressed: true, max_names: 8, shrink_chance: 30 }, weights: [60, 25, 15], max_raw: 600, max_sample: 20_000 }
+        InputOpts { rich: RichOpts { override_chance: 110, corrupt_chance: 70, max_gap: 64, tables_early: false, allow_compressed: true, max_names: 8, shrink_chance: 30, many_sections: false }, weights: [60, 25, 15], max_raw: 600, max_sample: 20_000 }
     }
 }
 
